@@ -13,11 +13,11 @@
        developer must be equal (Python ==) to its default; nested settings objects are always entered;
      - `Season_Definition` / `Weekday_Weekend_Definition`: every value is one of `options`, and `options` only
        holds the names the split components know (summer/shoulder/winter, weekday/weekend).
-   Not modelled (pure functions of the field values, so they accept again what a constructor accepted):
-   the cross-field validators _check_alpha_final, _check_final_bounds_scalar,
-   _check_initial_step_percentage, _check_reduce_splits_num_std; key / value lower-casing (documents
-   written by to_dict are already normalised).  Executable definitions only. *)
-From Coq Require Import ZArith List Bool String PrimFloat.
+     - the four cross-field validators (_check_alpha_final, _check_final_bounds_scalar,
+       _check_initial_step_percentage, _check_reduce_splits_num_std): [cross_ok].
+   Not modelled: key / value lower-casing (documents written by to_dict are already normalised).
+   Executable definitions only. *)
+From Coq Require Import ZArith List Bool String Ascii PrimFloat.
 From V Require Import Model.Json.
 Import ListNotations.
 Open Scope string_scope.
@@ -109,13 +109,82 @@ Definition sub_obj (k : string) (obj : list (string * json)) : list (string * js
 Definition dev_mode (obj : list (string * json)) : bool :=
   match get "developer_mode" obj with Some (JBool b) => b | _ => false end.
 
+(* ---- the cross-field validators of DailySettings / Split_Selection_Definition, on the validated values (a missing
+   key reads its class default):
+     _check_alpha_final               alpha_final None needs alpha_final_type None; a float must lie in [alpha_minimum, 2];
+                                      a string must be "adaptive"
+     _check_final_bounds_scalar       a value must be > 0 and needs alpha_final_type; None needs alpha_final_type None
+     _check_initial_step_percentage   a value must lie in (0, 0.5]; None is refused for an nlopt algorithm (and
+                                      `algorithm_choice[:5]` raises TypeError when the algorithm is None as well)
+     _check_reduce_splits_num_std     a list must have two entries, both > 0
+   Comparisons are IEEE (a NaN is never refused by `<=` / `>`), as in Python. *)
+Fixpoint leaf_default_of (name : string) (sch : schema) : option json :=
+  match sch with
+  | [] => None
+  | SLeaf n _ d _ :: rest => if String.eqb n name then Some d else leaf_default_of name rest
+  | SNest _ _ :: rest => leaf_default_of name rest
+  end.
+Fixpoint nest_schema_of (name : string) (sch : schema) : schema :=
+  match sch with
+  | [] => []
+  | SNest n sub :: rest => if String.eqb n name then sub else nest_schema_of name rest
+  | SLeaf _ _ _ _ :: rest => nest_schema_of name rest
+  end.
+
+Definition fieldv (sch : schema) (obj : list (string * json)) (name : string) : json :=
+  match get name obj with
+  | Some v => v
+  | None => match leaf_default_of name sch with Some d => d | None => JNull end
+  end.
+
+Definition is_null (j : json) : bool := match j with JNull => true | _ => false end.
+
+Fixpoint starts_with (p s : string) : bool :=
+  match p, s with
+  | EmptyString, _ => true
+  | String a p', String b s' => Ascii.eqb a b && starts_with p' s'
+  | _, _ => false
+  end.
+
+Definition positive (j : json) : bool :=
+  match num_of j with Some f => negb (PrimFloat.leb f 0%float) | None => false end.
+
+Definition cross_ok (sch : schema) (obj : list (string * json)) : bool :=
+  let v := fieldv sch obj in
+  let aft := v "alpha_final_type" in
+  (match v "alpha_final" with
+   | JNull => is_null aft
+   | JStr s => String.eqb s "adaptive"
+   | af => match num_of af, num_of (v "alpha_minimum") with
+           | Some a, Some m => negb (PrimFloat.ltb a m) && negb (PrimFloat.ltb 2%float a)
+           | _, _ => false
+           end
+   end) &&
+  (match v "final_bounds_scalar" with
+   | JNull => is_null aft
+   | fbs => positive fbs && negb (is_null aft)
+   end) &&
+  (match v "initial_step_percentage" with
+   | JNull => match v "algorithm_choice" with JStr s => negb (starts_with "nlopt" s) | _ => false end
+   | isp => match num_of isp with
+            | Some f => negb (PrimFloat.leb f 0%float) && negb (PrimFloat.ltb 0.5%float f)
+            | None => false
+            end
+   end) &&
+  (match fieldv (nest_schema_of "split_selection" sch) (sub_obj "split_selection" obj) "reduce_splits_num_std" with
+   | JNull => true
+   | JArr [a; b] => positive a && positive b
+   | _ => false
+   end).
+
 (* the constructor of a settings class on a stored tree: True = accepted *)
 Definition accepts (sch : schema) (settings : json) : bool :=
   match settings with
   | JObj obj =>
       accepts_fields (dev_mode obj) sch obj &&
       member_of_options months ["summer"; "shoulder"; "winter"] (sub_obj "season" obj) &&
-      member_of_options weekdays ["weekday"; "weekend"] (sub_obj "weekday_weekend" obj)
+      member_of_options weekdays ["weekday"; "weekend"] (sub_obj "weekday_weekend" obj) &&
+      cross_ok sch obj
   | _ => false
   end.
 
